@@ -235,7 +235,7 @@ def gen_value(ctx: WorkCtx, depth: int, in_dict: bool = False):
         return gen_model(ctx, min(depth - 1, 2))
     if k == "list":
         return ("list", [gen_value(ctx, depth - 1, in_dict) for _ in range(ch.draw("w.nlist", 4))])
-    keys = ["k", "a b", "ünï", "0", "nested", "file"]
+    keys = ["k", "a b", "ünï", "0", "nested", "file", "x.y", "1"]
     n = ch.draw("w.ndict", 4)
     return ("dict", {keys[(i + ch.draw("w.dkey", 3)) % len(keys)]: gen_value(ctx, depth - 1, True) for i in range(n)})
 
